@@ -727,7 +727,7 @@ impl Check for C09 {
         .boxed()
     }
     fn cases(&self, tier: Tier) -> u64 {
-        tier.pick(200_000, 10_000_000)
+        tier.pick(200_000, 30_000_000)
     }
     fn run(&self, case: &Case) -> (Verdict, CaseInfo) {
         let (r, info) = match case {
